@@ -482,7 +482,7 @@ def audit(cfg, crate, cname, rep):
             continue
         mx, cls, reason = ent
         rep.ob("C10.audit", k + "|count", len(ts) <= mx, "more panic sites of this kind than were audited", expected="<= %d" % mx, found=len(ts), sp=ts[-1].get("sp"))
-        ok, detail = mechanised(cfg, crate, key, cls, ts)
+        ok, detail = mechanised(cfg, crate, key, cls, ts, sorted({t_[3] for t_ in by_body.get(key, [])}))
         if not ok:
             # the audited idiom is gone: the site may still be provably safe on its (finite) domain
             ok_fd, why_fd = _finite()
@@ -660,7 +660,7 @@ def len_times_small(crate, fn, count):
     return all((is_len(m["l"]) and small(m["r"])) or (is_len(m["r"]) and small(m["l"])) for m in muls)
 
 
-def mechanised(cfg, crate, key, cls, ts):
+def mechanised(cfg, crate, key, cls, ts, bodies=None):
     cname, fn, cons = key
     if cls == "announced":
         f = crate.fns.get(fn)
@@ -685,7 +685,7 @@ def mechanised(cfg, crate, key, cls, ts):
         private = adt is not None and all(f["vis"] != "pub" for f in adt["variants"][0]["fields"])
         return (compared == statics and neg and private and len(statics) >= 7), "compared %d of %d statics; fields private: %s" % (len(compared & statics), len(statics), private)
     if cls == "guarded-len":
-        if cons in ("call:Result::unwrap", "call:Option::unwrap") and not exact_len_unwraps(crate, fn):
+        if cons in ("call:Result::unwrap", "call:Option::unwrap") and not all(exact_len_unwraps(crate, bn_) for bn_ in (bodies or [fn])):
             return False, "an unwrap of the function is not applied to a slice-to-array conversion of a slice whose length is, on that path, the array length"
         I = Interp(crate)
         I.run_fn(fn)
